@@ -36,7 +36,9 @@ theorem splitDotsChars_ne_nil (cs acc : List Char) : splitDotsChars cs acc ≠ [
 
 /-- the string case: field paths and variables -/
 theorem str_case (c : Ctx) (root : Val) (env : Env) (hr : EnvRel c root env) (s : String)
-    (h : strReasons root env s = []) : eval c (.str s) = sEval root env (.str s) := by
+    (h : strReasons root env s = []) (hok : okReasons (sEval root env (.str s)) = []) :
+    eval c (.str s) = sEval root env (.str s) := by
+  simp only [sEval] at hok
   simp only [eval, evalBasic, sEval]
   unfold strReasons at h
   cases hk : strKind s with
@@ -48,23 +50,25 @@ theorem str_case (c : Ctx) (root : Val) (env : Env) (hr : EnvRel c root env) (s 
     by_contra hc
     simp [hc] at h
   | var r =>
-    simp only [hk] at h ⊢
+    simp only [hk] at h hok ⊢
     cases hsp : splitDotsChars r [] with
     | nil => exact absurd hsp (splitDotsChars_ne_nil r [])
     | cons name rest =>
-      simp only [hsp] at h
-      simp only [getDotGen, varLookup, hr.hget name]
+      simp only [hsp] at h hok
+      simp only [evalVar, List.headD_cons, dhas, getDotGen, varLookup, hr.hget name]
+      simp only [varLookup] at hok
       cases hl : env.lookup name with
       | some ov =>
         cases ov with
         | some v =>
           simp only [hl] at h ⊢
+          simp only [Option.isSome_some, Bool.not_true, Bool.false_and, Bool.false_eq_true, if_false]
           apply getDotGen_eq_path
           by_contra hc
           simp [hc] at h
-        | none => rfl
+        | none => exact absurd hl (hr.hsome name)
       | none =>
-        simp only [hl] at h ⊢
+        simp only [hl] at h hok ⊢
         by_cases hn : name = "ROOT" ∨ name = "CURRENT"
         · have hb : (decide (name = "ROOT") || decide (name = "CURRENT")) = true := by
             rcases hn with e | e <;> simp [e]
@@ -72,16 +76,19 @@ theorem str_case (c : Ctx) (root : Val) (env : Env) (hr : EnvRel c root env) (s 
           have hp : pathThroughArray rest root = false := by
             by_contra hc; simp [hc] at h
           rw [if_pos hn, if_pos hb]
+          simp only [Option.isSome_some, Bool.not_true, Bool.false_and, Bool.false_eq_true, if_false]
           exact getDotGen_eq_path rest root hp
         · have h1 : ¬ name = "ROOT" := fun e => hn (Or.inl e)
           have h2 : ¬ name = "CURRENT" := fun e => hn (Or.inr e)
           have hb : ¬ (decide (name = "ROOT") || decide (name = "CURRENT")) = true := by
             simp [h1, h2]
-          rw [if_neg hb] at h
+          rw [if_neg hb] at hok
           rw [if_neg hn, if_neg hb]
           by_cases hrm : name = "REMOVE"
-          · rw [if_pos hrm]
-          · rw [if_neg hrm] at h; cases h
+          · subst hrm
+            simp [systemVars]
+          · rw [if_neg hrm] at hok
+            split at hok <;> simp [okReasons, unmodelled] at hok
 
 /-! ### constants -/
 
